@@ -178,8 +178,8 @@ Print Assumptions C04_store_order_refuted.
     TypedReject.v: rejection side; TypedAccess.v: the typed store of a parse result; TypedExamples.v).
     The parser-model modules are required without Import: their names are written qualified. *)
 From ClapModel Require Parse.Cmd Parse.Build Parse.Valid Parse.Matcher Parse.Errors Parse.Parser.
-From ClapModel Require ParseProofs.Relations ParseProofs.Totality ParseProofs.Provenance ParseProofs.Dispatch ParseProofs.KindSound ParseProofs.Unparse ParseProofs.UnparseTop.
-From ClapModel Require ParseProofs.TypedInv ParseProofs.TypedView ParseProofs.TypedAccess ParseProofs.TypedReject ParseProofs.TypedExamples.
+From ClapModel Require ParseProofs.Relations ParseProofs.Totality ParseProofs.Provenance ParseProofs.Dispatch ParseProofs.KindSound ParseProofs.Unparse ParseProofs.UnparseTop ParseProofs.Globals.
+From ClapModel Require ParseProofs.TypedInv ParseProofs.TypedView ParseProofs.TypedAccess ParseProofs.TypedReject ParseProofs.TypedMerge ParseProofs.TypedExamples.
 
 (** The state predicate of round 2.  The matcher model stores raw values only (the typed values of
     MatchedArg::vals are value_parser.parse_ref of them, pushed by the same add_val_to call); "typed" for a
@@ -257,6 +257,44 @@ Theorem C04_do_parse_typed_noglobals :
           []) -> TypedInv.typed_matches (Build.build_self c0) m.
 Proof. exact TypedInv.do_parse_typed_noglobals. Qed.
 Print Assumptions C04_do_parse_typed_noglobals.
+
+(** THROUGH THE GLOBALS MERGE (ParseProofs/TypedMerge.v).  A typed chain, level by level: each level has a spec
+    (id -> value parser: cmd_spec c for a level of the command c, ext_spec c for the capture of an external
+    subcommand) and what the accessors can reach at that level is accepted by the parser its spec names. *)
+Theorem C04_typed_chain :
+  forall (c : Cmd.cmd) (m : Matcher.matches),
+         TypedInv.typed_matches c m ->
+         exists sps : list TypedMerge.spec,
+           TypedMerge.chain_specs c m sps /\ Forall2 TypedMerge.typed_lv sps (Globals.levels m).
+Proof. exact TypedMerge.typed_chain. Qed.
+Print Assumptions C04_typed_chain.
+
+(** The merge keeps every level typed PROVIDED the definitions agree on the parser of each global id wherever that id
+    has an entry (globals_consistent) -- the entry copied to the other levels keeps the typed values its own
+    level's parser produced. *)
+Theorem C04_merge_typed :
+  forall (fuel : nat) (globals : list Cmd.id) (m : Matcher.matches) (sps : list TypedMerge.spec),
+         (Parser.matches_depth m <= fuel)%nat ->
+         Forall2 TypedMerge.typed_lv sps (Globals.levels m) ->
+         TypedMerge.globals_consistent globals sps (Globals.levels m) ->
+         Forall2 TypedMerge.typed_lv sps (Globals.levels (fst (Globals.filled fuel globals m))).
+Proof. exact TypedMerge.merge_typed. Qed.
+Print Assumptions C04_merge_typed.
+
+(** what _do_parse reports, level by level, after the merge *)
+Theorem C04_do_parse_merged_typed :
+  forall (c0 : Cmd.cmd) (toks : list bytes) (m : Matcher.matches),
+         Parser.do_parse c0 toks = Parser.OOk m ->
+         exists (st : Parser.ps) (sps : list TypedMerge.spec),
+           m = Relations.reported c0 st /\
+           TypedMerge.chain_specs (Build.build_self c0) (Matcher.into_inner (Parser.mt st)) sps /\
+           (TypedMerge.globals_consistent
+              (Parser.used_global_args (S (Parser.matches_depth (Matcher.into_inner (Parser.mt st))))
+                 (Build.build_recursive (S (S (Cmd.depth (Build.build_self c0)))) c0)
+                 (Matcher.into_inner (Parser.mt st))) sps (Globals.levels (Matcher.into_inner (Parser.mt st))) ->
+            Forall2 TypedMerge.typed_lv sps (Globals.levels m)).
+Proof. exact TypedMerge.do_parse_merged_typed. Qed.
+Print Assumptions C04_do_parse_merged_typed.
 
 (** Rejection side, first half: a value outside the language of the argument's parser is never among the values
     a typed level stores for that argument. *)
@@ -650,3 +688,25 @@ Theorem C04_merged_typed_refuted :
            Parser.vp_parse (Cmd.VPI64 0 9) [97; 98; 99] = Some Errors.EValueValidation.
 Proof. exact TypedExamples.TypedEx.merged_typed_refuted. Qed.
 Print Assumptions C04_merged_typed_refuted.
+
+(** the ordinary use of a global argument (defined at the root, copied into the subcommand by the build step, given
+    after the subcommand name) satisfies globals_consistent; both reported levels hold the value *)
+Theorem C04_ex_merge_consistent :
+  exists (m : Matcher.matches) (st : Parser.ps),
+           Valid.valid TypedExamples.TypedEx.ck = true /\
+           Parser.do_parse TypedExamples.TypedEx.ck (tl TypedExamples.TypedEx.argv_k) = Parser.OOk m /\
+           m = Relations.reported TypedExamples.TypedEx.ck st /\
+           TypedMerge.chain_specs (Build.build_self TypedExamples.TypedEx.ck) (Matcher.into_inner (Parser.mt st))
+             [TypedMerge.cmd_spec (Build.build_self TypedExamples.TypedEx.ck);
+              TypedMerge.cmd_spec TypedExamples.TypedEx.sck] /\
+           TypedMerge.globals_consistent
+             (Parser.used_global_args (S (Parser.matches_depth (Matcher.into_inner (Parser.mt st))))
+                (Build.build_recursive (S (S (Cmd.depth (Build.build_self TypedExamples.TypedEx.ck))))
+                   TypedExamples.TypedEx.ck) (Matcher.into_inner (Parser.mt st)))
+             [TypedMerge.cmd_spec (Build.build_self TypedExamples.TypedEx.ck);
+              TypedMerge.cmd_spec TypedExamples.TypedEx.sck] (Globals.levels (Matcher.into_inner (Parser.mt st))) /\
+           TypedExamples.TypedEx.raws m TypedExamples.TypedEx.w_cfg = Some [[[52]]] /\
+           Cmd.opt_map (fun sm : Matcher.matches => TypedExamples.TypedEx.raws sm TypedExamples.TypedEx.w_cfg)
+             (TypedExamples.TypedEx.sub_of m) = Some (Some [[[52]]]).
+Proof. exact TypedExamples.TypedEx.ex_merge_consistent. Qed.
+Print Assumptions C04_ex_merge_consistent.
